@@ -254,7 +254,7 @@ def run(tier: str, seed: int, st: core.ProofStatus) -> core.Result:
                 "lines, a third of the classes declared under if / else / try / except / with / for / while / def / namespace / mod / a bare block, max_loc swept around one class's size, keyword names, check_keywords on/off, overrides for the file's language or "
                 "another one; non-trivial = a file with both a reported and an unreported class; distinct by rendered text + config")
     rng = core.sub_rng(seed, PROP, tier)
-    n = 200 if tier == "quick" else 5000
+    n = 600 if tier == "quick" else 5000
     cases = [gen_case(rng, i) for i in range(n)]
     root = core.scratch_dir("c16")
     try:
